@@ -65,7 +65,7 @@ def payload(cfg):
 	elif p == 'empty-sigs':
 		sets = [[], [], []]
 	else:
-		total = (1 << 18) if p == 'medium' else (1 << 21)      # 1 MB / 8 MB of uint32
+		total = (5 << 17) if p == 'medium' else (1 << 21)      # 2.5 MiB / 8 MiB of uint32 (several MiB-sized buffers' worth)
 		nsig = 40
 		per = total // nsig
 		sets = []
